@@ -499,3 +499,107 @@ def run_clonefree(prog, ctx=None):
     if n < 3:
         raise Broken("CLONEFREE: only %d clone-into-member sites" % n)
     return res
+
+
+def run_raisetest(prog, ctx=None):
+    """RAISETEST: taking a reference (a call through an `addref` slot, mpt_refcount_raise) answers with the new count, an
+    unsigned value of pointer width, and 0 when the counter cannot be raised.  Whatever decides on that answer separates 0
+    from the rest: it is a zero test on the full-width value.  A `< 0` test (directly, or on a signed variable that took the
+    answer) lets the failure value through as a reference taken; a variable narrower than the answer reads counts whose
+    low bits are zero as failures after the counter was raised."""
+    res = Result("RAISETEST")
+    files = set(ctx.get("files", [])) if ctx else None
+    from .rules_path import funcs_of
+    for f in funcs_of(prog, files):
+        par = {}
+
+        def link(n):
+            from .facts import children
+            for c in children(n):
+                if isinstance(c, dict):
+                    par[id(c)] = n
+                    link(c)
+        calls = []
+        for b, i, e in f.elements():
+            link(e)
+        for b in f.blocks.values():
+            if b.term and b.term.get("cond") is not None:
+                link(b.term["cond"])
+        for b, i, n in f.walk_all():
+            if n.get("k") != "call":
+                continue
+            nm = callee_name(n)
+            slot = None
+            if n.get("callee") is not None:
+                cal = strip(n["callee"], all_casts=True)
+                if cal.get("k") == "mem":
+                    slot = cal.get("f")
+            if n.get("mcall"):
+                slot = (n.get("fn") or {}).get("n")
+            if not (nm == "mpt_refcount_raise" or slot == "addref"):
+                continue
+            RT = f.T(n.get("t"))
+            if RT.get("k") != "int":
+                continue
+            calls.append((b, n, RT))
+        for b, n, RT in calls:
+            what = norm(show(n, f))[:60]
+            # climb through casts / parentheses
+            cur = n
+            p = par.get(id(cur))
+            while p is not None and p.get("k") in ("cast", "paren"):
+                cur, p = p, par.get(id(p))
+            verdict = None        # (ok, message)
+            var = None
+            if p is None:
+                continue
+            if p.get("k") == "bin" and p.get("op") in ("<", "<=", ">", ">=", "==", "!="):
+                other = p["b"] if strip(p["a"], all_casts=True) is strip(cur, all_casts=True) or p["a"] is cur else p["a"]
+                cv = cval(other)
+                op = p["op"] if other is p["b"] else {"<": ">", "<=": ">=", ">": "<", ">=": "<=", "==": "==", "!=": "!="}[p["op"]]
+                if cv == 0 and op == "<":
+                    verdict = (False, "`%s` is never true for an unsigned count: the failure answer 0 passes as a reference taken" % norm(show(p, f)))
+                elif cv == 0 and op == ">=":
+                    verdict = (False, "`%s` is always true for an unsigned count: the failure answer 0 is not told apart" % norm(show(p, f)))
+                elif cv == 0:
+                    verdict = (True, "")
+            elif p.get("k") == "bin" and p.get("op") == "=" and (p["b"] is cur or strip(p["b"], all_casts=True) is strip(cur, all_casts=True)):
+                l = strip(p["a"], lvalue_to_rvalue=False)
+                if l.get("k") == "ref" and "id" in l["d"]:
+                    var = (l["d"]["id"], l["d"]["n"], f.T(l.get("t")), p)
+            elif p.get("k") == "decl":
+                for v in p.get("vars", []):
+                    if v.get("init") is not None and any(x is n for x in walk(v["init"])):
+                        var = (v["id"], v["n"], f.T(v.get("t")), p)
+            if var is not None:
+                vid, vn, VT, site = var
+                if VT.get("k") == "int" and (VT.get("sz") or 0) < (RT.get("sz") or 0):
+                    verdict = (False, "the answer of %s is kept in `%s` (%s, %d bytes), narrower than the count (%d bytes): a count whose low bits read as zero or negative is taken for a failure after the counter was raised" % (
+                        what, vn, VT.get("s"), VT.get("sz") or 0, RT.get("sz") or 0))
+                else:
+                    # the assignment itself may be the operand of a comparison: (ret = addref()) < 0
+                    tests = []
+                    q = par.get(id(site))
+                    s2 = site
+                    while q is not None and q.get("k") in ("cast", "paren"):
+                        s2, q = q, par.get(id(q))
+                    if q is not None and q.get("k") == "bin" and q.get("op") in ("<", "<=", ">", ">="):
+                        tests.append((q, q["a"] is s2 or strip(q["a"], all_casts=True) is strip(s2, all_casts=True)))
+                    for b2, i2, m in f.walk_all():
+                        if m.get("k") == "bin" and m.get("op") in ("<", "<=", ">", ">="):
+                            for side, first in ((m["a"], True), (m["b"], False)):
+                                s = strip(side, all_casts=True)
+                                if s.get("k") == "ref" and s["d"].get("id") == vid:
+                                    tests.append((m, first))
+                    for m, first in tests:
+                        other = m["b"] if first else m["a"]
+                        op = m["op"] if first else {"<": ">", "<=": ">=", ">": "<", ">=": "<="}[m["op"]]
+                        if cval(other) == 0 and op in ("<", ">="):
+                            verdict = (False, "the answer of %s is tested with `%s`: the failure answer is 0, which this test takes for a reference taken" % (what, norm(show(m, f))))
+                    if verdict is None:
+                        verdict = (True, "")
+            if verdict is None:
+                # boolean use (!x, condition, && / ||) or result not looked at (REFREPLACE reports ignored answers)
+                verdict = (True, "")
+            res.ob("%s:%s" % (f.qn, what), verdict[0], f, n.get("l", f.line) or f.line, verdict[1])
+    return res
